@@ -215,7 +215,10 @@ func (e *eccKeyAgreement) generateClientKeyExchange(hs *clientHandshakeState) ([
 		return nil, nil, err
 	}
 
-	pub := encCert.PublicKey.(*ecdsa.PublicKey)
+	pub, ok := encCert.PublicKey.(*ecdsa.PublicKey)
+	if !ok {
+		return nil, nil, errors.New("tlcp: server encrypt certificate key type not sm2")
+	}
 	encrypted, err := sm2.Encrypt(config.rand(), pub, preMasterSecret, sm2.ASN1EncrypterOpts)
 	if err != nil {
 		return nil, nil, err
@@ -499,6 +502,11 @@ func (ka *sm2ECDHEKeyAgreement) generateClientKeyExchange(hs *clientHandshakeSta
 	}
 
 	// 使用客户端加密密钥对进行SM2密钥交换
+	// ECDHE 要求客户端持有加密密钥对；服务端未发送证书请求（或客户端无加密证书）时
+	// hs.encCert 为空，此时无法完成 SM2 密钥交换。
+	if hs.encCert == nil {
+		return nil, nil, errors.New("tlcp: ECDHE key exchange requires a client encryption key pair")
+	}
 	encPriv := hs.encCert.PrivateKey
 	switch prvKey := encPriv.(type) {
 	case SM2KeyAgreement:
